@@ -96,6 +96,7 @@ class PathRun:
         self.no_fork = 0
         self.safe_seen = set()
         self.skip_kinds = set()
+        self.slice_views = {}
 
     # ---- symbols ---------------------------------------------------------
     def fresh(self, name, sort=Val):
@@ -111,7 +112,7 @@ class PathRun:
 
     # ---- assumptions -----------------------------------------------------
     def assume(self, c):
-        c = sym.simp(c) if not z3.is_quantifier(c) else c
+        c = sym.simp(c)
         if z3.is_true(c):
             return
         self.pc.append(c)
@@ -206,7 +207,7 @@ class PathRun:
     def oblige(self, name, goal, kind='assert', lineno=None, props=(), info=None):
         if kind in self.skip_kinds:
             return
-        g = sym.simp(goal) if not z3.is_quantifier(goal) else goal
+        g = sym.simp(goal)
         if z3.is_true(g):
             self.eng.trivial += 1
             return
